@@ -848,7 +848,7 @@ fn limit_pl_cases() -> Vec<(String, String, usize)> {
 }
 
 const VOCAB: &[&str] = &[
-    "(", ")", "CHARACTER", "C", "A", "LIGTABLE", "LABEL", "LIG", "KRN", "STOP", "SKIP", "D", "R", "1", "256", "-1", "BOUNDARYCHAR", "NEXTLARGER", "VARCHAR", "REP", "CHARWD", "DESIGNSIZE", "CHECKSUM", "HEADER", "FONTDIMEN", "PARAMETER", "O", "é",
+    "(", ")", "CHARACTER", "C", "A", "LIGTABLE", "LABEL", "LIG", "KRN", "STOP", "SKIP", "D", "R", "1", "256", "-1", "BOUNDARYCHAR", "NEXTLARGER", "VARCHAR", "REP", "CHARWD", "DESIGNSIZE", "CHECKSUM", "HEADER", "FONTDIMEN", "PARAMETER", "O", "é", "\r", "\r\n", "\n\r",
 ];
 
 fn nesting_cases(thorough: bool) -> Vec<(String, String)> {
@@ -892,6 +892,8 @@ struct Families {
     many: Vec<(String, String)>,
     limit_tfms_cell: std::sync::OnceLock<Vec<(String, Vec<u8>)>>,
     limit_pls_cell: std::sync::OnceLock<Vec<(String, String, usize)>>,
+    /// (description, text) and prefix sums of len+1: line-ending variants of corpus PLs and templates
+    le_cell: std::sync::OnceLock<(Vec<(String, String)>, Vec<u64>)>,
     hdr_sweep: Vec<(String, Vec<u8>)>,
     vocab_len: u32,
 }
@@ -914,6 +916,40 @@ impl Families {
     }
     fn limit_pls(&self) -> &Vec<(String, String, usize)> {
         self.limit_pls_cell.get_or_init(limit_pl_cases)
+    }
+    /// Every text-family corpus PL and every template (first lattice values, one property per line) with
+    /// its line ends turned into CR LF, CR, CR CR LF; cases = every truncation of every variant.
+    fn line_endings(&self, d: &Data) -> &(Vec<(String, String)>, Vec<u64>) {
+        self.le_cell.get_or_init(|| {
+            let mut bases: Vec<(String, String)> = self.text.files.iter().map(|(pi, _, _)| d.pls[*pi].clone()).collect();
+            for (k, (tpl, _)) in TEMPLATES.iter().enumerate() {
+                let idx = template_sizes()[k];
+                bases.push((format!("template {k} `{}`", vcore::clip(tpl, 40)), template_case(idx).replace(")(", ")\n(") + "\n"));
+            }
+            let mut out = vec![];
+            for (name, t) in bases {
+                let unix = t.replace("\r\n", "\n");
+                let unix = if unix.contains('\n') { unix } else { format!("{unix}\n") };
+                for (v, le) in [("CR LF", "\r\n"), ("CR", "\r"), ("CR CR LF", "\r\r\n")] {
+                    out.push((format!("{name} with {v} line ends"), unix.replace('\n', le)));
+                }
+            }
+            let mut starts = vec![0u64];
+            for (_, t) in &out {
+                starts.push(starts.last().unwrap() + t.len() as u64 + 1);
+            }
+            (out, starts)
+        })
+    }
+    fn line_ending_case(&self, d: &Data, idx: u64) -> Option<(String, String)> {
+        let (list, starts) = self.line_endings(d);
+        let fi = starts.partition_point(|s| *s <= idx) - 1;
+        let l = (idx - starts[fi]) as usize;
+        let (name, t) = &list[fi];
+        if !t.is_char_boundary(l) {
+            return None;
+        }
+        Some((format!("{name}, truncated to {l} of {} bytes", t.len()), t[..l].to_string()))
     }
     fn new(d: &Data) -> Families {
         let find = |n: &str| d.tfms.iter().find(|x| x.0 == n).cloned();
@@ -950,7 +986,7 @@ impl Families {
             mut_starts.push(mut_starts.last().unwrap() + r as u64 * 256);
         }
         let pair_bases: Vec<(String, Vec<u8>)> = d.synth.iter().filter(|x| x.0.contains("min")).take(if d.thorough { 2 } else { 1 }).cloned().collect();
-        Families { hdr_bases, trunc_starts, mut_files, mut_starts, pair_bases, text: TextFamily::new(d), nesting: nesting_cases(d.thorough), many: many_entrypoints_cases(), limit_tfms_cell: Default::default(), limit_pls_cell: Default::default(), hdr_sweep: header_sweep_bases(), vocab_len: if d.thorough { 5 } else { 4 } }
+        Families { hdr_bases, trunc_starts, mut_files, mut_starts, pair_bases, text: TextFamily::new(d), nesting: nesting_cases(d.thorough), many: many_entrypoints_cases(), limit_tfms_cell: Default::default(), limit_pls_cell: Default::default(), le_cell: Default::default(), hdr_sweep: header_sweep_bases(), vocab_len: if d.thorough { 5 } else { 4 } }
     }
     fn list(&self, d: &Data) -> Vec<Fam> {
         vec![
@@ -964,6 +1000,7 @@ impl Families {
             Fam { name: "tfm-size-limits", bounds: format!("{} size-consistent synthetic fonts: one of lh, nw, nh, nd, ni, nl, nk, ne, np, bc..ec at a time at its minimum, at the largest value its index field can address, one beyond, and near the 15-bit limit (lh 2..32000 incl. 271..275, nw/nh/nd/ni 1..32000, nl 0..32700 incl. 32509..32511, nk, ne 254..257, np 253..257), all tables at their maximum with 256 characters; characters pointing at the first or at the last entry", self.limit_tfms().len()), n: self.limit_tfms().len() as u64 },
             Fam { name: "tfm-header-bytes", bounds: "every byte of the header of two synthetic fonts (lh = 18 and lh = 20) set to every value 0..255 (checksum, design size, both string lengths and contents, seven-bit-safe byte, face byte, extra words)".into(), n: self.hdr_sweep.iter().map(|x| (x.1.len().min(24 + 80) - 24) as u64 * 256).sum() },
             Fam { name: "pl-size-limits", bounds: format!("{} property lists at the table-size limits: LIGTABLEs of 32509/32510/32511/40000/70000 instructions, 254/255/256 VARCHAR characters, 254..256 characters with as many distinct dimensions in one NEXTLARGER chain, 253..256/1000 parameters, math-font parameter counts, HEADER D 18..254/255/256/300, 255..32510 distinct kerns, string lengths 39..41/19..21/300, every FACE code 0..256", self.limit_pls().len()), n: self.limit_pls().len() as u64 },
+            Fam { name: "pl-line-endings", bounds: format!("{} texts (every corpus property list of the token-fault family and every template, one property per line) x line ends CR LF / CR / CR CR LF, truncated at every byte position (incl. between CR and LF and after a final CR)", self.line_endings(d).0.len() / 3), n: *self.line_endings(d).1.last().unwrap() },
             Fam { name: "pl-many-entrypoints", bounds: format!("{} property lists: 254/255/256 characters each labelling its own one-instruction chain, behind 0/1/2/3/254/255/256/300 unlabelled instructions, with and without a boundary label (up to 257 entry points in need of a restart word)", self.many.len()), n: self.many.len() as u64 },
             Fam { name: "pl-nesting", bounds: format!("{} texts of 1..10^{} repeated openers / closers / nested comments (unbalanced and balanced)", self.nesting.len(), if d.thorough { 6 } else { 5 }), n: self.nesting.len() as u64 },
         ]
@@ -1042,6 +1079,10 @@ impl Families {
                 let (what, text) = &self.many[idx as usize];
                 check_text(w, idx, text, &|| text_case(fam, idx, text, what.clone()));
             }
+            "pl-line-endings" => match self.line_ending_case(d, idx) {
+                None => w.acc.skipped += 1,
+                Some((what, text)) => check_text(w, idx, &text, &|| text_case(fam, idx, &text, what.clone())),
+            },
             "pl-size-limits" => {
                 let (what, text, needs) = &self.limit_pls()[idx as usize];
                 NEEDS_WORDS.with(|c| c.set(*needs));
@@ -1342,6 +1383,10 @@ fn describe_case(d: &Data, f: &Families, fam: &str, idx: u64) -> Value {
             let (what, text) = &f.many[idx as usize];
             text_case(fam, idx, text, what.clone())
         }
+        "pl-line-endings" => match f.line_ending_case(d, idx) {
+            Some((what, text)) => text_case(fam, idx, &text, what),
+            None => json!({"family": fam, "index": idx}),
+        },
         "pl-size-limits" => {
             let (what, text, needs) = &f.limit_pls()[idx as usize];
             let mut v = text_case(fam, idx, text, what.clone());
